@@ -4,6 +4,7 @@
 pub mod alloc;
 pub mod case;
 pub mod crash;
+pub mod decode;
 pub mod dump;
 pub mod elem;
 pub mod layouts;
